@@ -211,11 +211,11 @@ func main() {
 	// dynamic part
 	type loc struct {
 		g     *gg.Gen
-		reset func()
+		reset func(int)
 	}
 	coords := []float64{0, 0, 2, 0, 2, 2, 0, 2, 0, 0, 1.26, 1.333, 3, 0.5, -1.07, 4.449}
 	newLocal := func(int) interface{} {
-		next, reset := gg.Cyclic(coords)
+		next, reset := gg.CyclicAt(coords)
 		return &loc{&gg.Gen{K: 2, M: 2, Depth: 3, NilSlice: true, SortBound: true, Next: next}, reset}
 	}
 	check := func(c *mc.Ctx, g orb.Geometry) {
@@ -329,9 +329,9 @@ func main() {
 			c.NonTrivial()
 		}
 	}
-	r.Explore("dynamic-noncollection", fmt.Sprintf("%d registered entry points x full product of the 8 non-collection kinds (k=2,m=2) and the nil interface", len(reg)), mc.Opts{MaxDev: -1, NewLocal: newLocal, StopAfter: 1 << 30}, func(c *mc.Ctx) {
+	r.Explore("dynamic-noncollection", fmt.Sprintf("%d registered entry points x 8 rotations of the coordinate list x full product of the 8 non-collection kinds (k=2,m=2) and the nil interface", len(reg)), mc.Opts{MaxDev: -1, NewLocal: newLocal, StopAfter: 1 << 30}, func(c *mc.Ctx) {
 		l := c.Local().(*loc)
-		l.reset()
+		l.reset(c.Choose(len(coords) / 2)) // every rotation of the coordinate list: every pair of points at every slot
 		k := c.Choose(gg.KCollection + 1)
 		if k == gg.KCollection {
 			check(c, nil)
@@ -342,7 +342,7 @@ func main() {
 	dev := ev.Pick(r, 6, 8)
 	r.Explore("dynamic-collections", fmt.Sprintf("the same entry points x collections nested to depth 3 within %d deviations", dev), mc.Opts{MaxDev: dev, NewLocal: newLocal, StopAfter: 1 << 30}, func(c *mc.Ctx) {
 		l := c.Local().(*loc)
-		l.reset()
+		l.reset(c.Choose(len(coords) / 2))
 		check(c, l.g.Kind(c, gg.KCollection, 0, true))
 	})
 	_ = mvt.DefaultExtent
